@@ -90,7 +90,13 @@ impl<W: std::io::Write> std::io::Write for ChecksummedWriter<W> {
     }
 
     fn write(&mut self, buf: &[u8]) -> std::io::Result<usize> {
-        self.hasher.update(buf);
-        self.inner.write(buf)
+        let n = self.inner.write(buf)?;
+
+        // NOTE: Only hash what the inner writer actually accepted, because
+        // `write_all` will retry the rest
+        #[expect(clippy::indexing_slicing)]
+        self.hasher.update(&buf[..n]);
+
+        Ok(n)
     }
 }
